@@ -171,7 +171,7 @@ bool provider(const std::string &prop, const std::string &tier, const std::strin
     suite.event_name = ev_name;
     Spec base; base.check_tasks = prop == "C07"; base.check_stop = prop == "C08";
     if (prop == "C15") {
-        int b = thorough ? 2 : 1;
+        int b = thorough ? 3 : 2;
         { Spec s = base; s.script = "SSWX"; s.maxThreads = 2; add(suite, s, b, flavour); }
         { Spec s = base; s.script = "SGSX"; s.maxThreads = 1; add(suite, s, b, flavour); }
         { Spec s = base; s.script = "SWAUGUGSX"; s.maxThreads = 1; s.expiry = 0; add(suite, s, b, flavour); }
@@ -185,14 +185,15 @@ bool provider(const std::string &prop, const std::string &tier, const std::strin
                          "no spurious condition-variable wake-ups are generated", "one owner thread; bounded scripts, task counts, worker counts and preemption bounds as listed per program"};
     if (prop == "C07") suite.relevant = [](int o, const std::string &m, const std::string &) { return o == VS_OUT_ORACLE || o == VS_OUT_CRASH || (o == VS_OUT_DEADLOCK && m.find("t0:blocked-in-harness-wait") != std::string::npos); };
     if (prop == "C08") suite.relevant = [](int o, const std::string &m, const std::string &) { return o == VS_OUT_ORACLE || (o == VS_OUT_DEADLOCK && m.find("t0:blocked-in-harness-wait") == std::string::npos); };
-    int b = thorough ? 3 : 2;
+    int b = thorough ? 4 : 3;
     for (int mt : {1, 2}) {
         for (const char *sc : {"SWX", "SX", "SSWX", "SSX", "SCSWX", "SXSWX", "SSCX"}) { Spec s = base; s.script = sc; s.maxThreads = mt; add(suite, s, b, flavour); }
     }
-    { Spec s = base; s.script = "SSSWX"; s.maxThreads = 2; add(suite, s, 2, flavour); }
-    { Spec s = base; s.script = "SWSWX"; s.maxThreads = 2; add(suite, s, 2, flavour); }
+    { Spec s = base; s.script = "SSSWX"; s.maxThreads = 2; add(suite, s, thorough ? 3 : 2, flavour); }
+    { Spec s = base; s.script = "SWSWX"; s.maxThreads = 2; add(suite, s, 3, flavour); }
     { Spec s = base; s.script = "X"; s.maxThreads = 1; add(suite, s, 1, flavour); }
-    { Spec s = base; s.script = "SWXX"; s.maxThreads = 1; add(suite, s, 2, flavour); }
+    { Spec s = base; s.script = "SWXX"; s.maxThreads = 1; add(suite, s, 3, flavour); }
+    { Spec s = base; s.script = "SSCSX"; s.maxThreads = 2; add(suite, s, 2, flavour); }
     if (thorough) {
         { Spec s = base; s.script = "SSSWX"; s.maxThreads = 3; add(suite, s, 2, flavour); }
         { Spec s = base; s.script = "SSSSWX"; s.maxThreads = 2; add(suite, s, 2, flavour); }
